@@ -627,20 +627,21 @@ func ruleExplicitPanics(p *Prog, r *Out) {
 		"(*FrameHeader).SetBody":  "API misuse guard (nil body); every library call passes the result of AcquireFrame",
 	}
 	n := 0
-	for _, f := range p.allFuncs() {
-		for _, cs := range p.callsIn(f) {
-			if cs.Callee != "builtin.panic" {
-				continue
+	for _, f := range append(append([]*ast.File{}, p.Files...), p.UFiles...) {
+		pm := p.parentMaps()[f]
+		inspectCalls(f, func(c *ast.CallExpr) {
+			if p.calleeOf(c) != "builtin.panic" {
+				return
 			}
 			n++
-			fn := p.fname(f)
-			if f.Pkg == p.SUPkg {
-				r.ok(fn+" panics", p.ipos(cs.Instr), "test helper package function")
-				continue
+			fn := enclosingFunc(pm, c)
+			if strings.Contains(p.Fset.Position(c.Pos()).Filename, "/http2utils/") {
+				r.ok("http2utils."+fn+" panics", p.pos(c.Pos()), "test helper package function")
+				return
 			}
 			why, ok := reviewed[fn]
-			r.check(ok, fn+" panics", p.ipos(cs.Instr), "reviewed: "+why, fn+" contains an explicit panic that is not in the reviewed table: reachable from peer input it takes the connection's goroutine (and, unrecovered, the process) down")
-		}
+			r.check(ok, fn+" panics", p.pos(c.Pos()), "reviewed: "+why, fn+" contains an explicit panic that is not in the reviewed table: reachable from peer input it takes the connection's goroutine (and, unrecovered, the process) down")
+		})
 	}
 	if n == 0 {
 		r.ok("no explicit panics", "?", "none")
